@@ -8,6 +8,10 @@ def repo_commits(prefix):
     return [l.split()[0] for l in out.splitlines() if l.split(" ", 1)[1].startswith(prefix)]
 
 CHECKS = {
+ "C01": dict(engine="E1 native history simulator (sim c01) + LD_PRELOAD getrandom/clock shim + SimAlloc", category="exploration", design_ref="5.1",
+   technique="deterministic simulation: seeded call histories over a pool of maps with environment faults (fresh hash universe per thread via a getrandom shim, heap noise, allocator poison reseed, clock jumps, reused vs fresh builders); first-seen memo table and pristine-map comparison as oracles",
+   text="Seeded search over call histories with every ambient source of nondeterminism (hash seeds, addresses, clock, thread placement) owned and varied by the simulator; equality of repeated logical calls and immutability of borrowed maps checked after every step.",
+   note="Assumes getrandom and clock_gettime are the only ways std reaches OS randomness/time on this platform (the shim counts its calls); ASLR is not controlled, replays are verified in a fresh process before a violation is printed."),
  "C02": dict(engine="E1 native history simulator (sim c02)", category="exploration", design_ref="5.2",
    technique="deterministic simulation: seeded call/fault histories (crash+restart, moves, thread hops, early map drop) on the stateful gradual calculator, checked step by step against the one-shot calculator as executable reference model",
    text="Seeded search over histories of a stateful calculator with injected environment events, every step refined against the batch calculator. Sampling, not proof: a clean batch is evidence.",
@@ -16,10 +20,34 @@ CHECKS = {
    technique="deterministic simulation: seeded histories of next/nth/last/len with arbitrary score states plus crash+restart/moves, checked against a position model and the one-shot Performance calculator",
    text="Seeded search over call histories of the gradual performance calculators against a small executable model (position counter + one-shot Performance).",
    note="Trusts one-shot Performance as reference, and the one-shot difficulty attributes for the number of steps."),
+ "C05": dict(engine="E5 corrupt-file pipeline in crash-isolated workers (sim c05r / c05a)", category="exploration", design_ref="5.7",
+   technique="fault injection on stored bytes (torn/lost/duplicated/reordered lines, bit flips, corrupted numbers, re-encoding) feeding the whole public pipeline in worker processes under RLIMIT_AS with a watchdog; stalled or dead workers are bisected to the in-flight run via progress markers",
+   text="Seeded storage-fault injection over real and generated files, two domains (realistic: checked + plain build; adversarial: plain build); every public call unwound separately; process-level crash/hang isolation.",
+   note="The time budget is 30 CPU-seconds per call / 180 s per run alone (three orders of magnitude above typical); the memory budget is RLIMIT_AS 4 GiB. One known finding (hours-long sliders in osu!catch) is listed in known_findings.txt."),
+ "C06": dict(engine="E2 simulated reader + stored-byte faults (sim c06)", category="fault_enumeration", design_ref="5.6",
+   technique="fault injection through the decoder's existing BufRead seam: seeded and, for small files, enumerated short reads, EINTR, hard I/O errors and premature EOF over stored bytes that went through seeded storage faults; single-chunk decode, single-line decode and torn-prefix decode as reference models",
+   text="For ~12% of files <= 600 bytes every two-chunk split, truncation offset, EINTR position and hard-error offset is enumerated; everything else is seeded sampling. Seven oracles (totality, schedule independence, error containment, torn-file equivalence, entry-point agreement, well-formedness, sound pairing).",
+   note="Enumeration is per file and single-fault; multi-fault plans and large files are sampled. Known finding in the dependency rosu-map (first fill_buf window of 1-2 bytes) is listed in known_findings.txt."),
+ "C10": dict(engine="E4 cross-build trace differ (sim trace x 4 builds, lib/c10.py)", category="exploration", design_ref="5.8",
+   technique="deterministic simulation replayed across build configurations: the same seeded workload (incl. thread hand-over events) is executed by four separately built binaries and the per-call event logs are diffed; disagreements are minimised by delta debugging over the case",
+   text="Seeded workload with emphasis on taiko, converts and maps with breaks of up to 57 minutes, executed under all four feature combinations; logs must match call by call (numerically: -0.0 == 0.0).",
+   note="Equality is numeric equality of every reported field as the property states; the four binaries are checked to report the feature set they were built with."),
+ "C11": dict(engine="E3 Miri (miri/ mscen) + E1 native with SimAlloc poisoning (sim c11s, c11d, c15, c02)", category="exploration", design_ref="5.9",
+   technique="deterministic simulation under a memory monitor: seeded operation histories on the strain list vs a Vec model, on gradual calculators (moves, restarts, early drops, thread hops) and on the decoder with malformed slider paths through byte-wise readers, executed natively with allocator junk/poison and under Miri (Tree Borrows), whose seed fixes schedule and addresses",
+   text="Miri checks every access on small cases (hundreds per run); native runs cover hundreds of thousands of full-size histories where a stale read surfaces as a wrong value, a panic or an abort.",
+   note="Trusts Miri's Tree Borrows model (Stacked Borrows rejects the self-referential OsuGradualDifficulty on move, which is not an invalid access; see DESIGN E3). Needs the verif-hook re-export of StrainsVec."),
  "C15": dict(engine="E1 native history simulator (sim c15)", category="exploration", design_ref="5.4",
    technique="deterministic simulation: seeded call histories (next, nth(k) incl. beyond the end, len, size_hint, std adaptors, crash+restart, moves) against a sequence model built from plain next() on a twin",
    text="Seeded search over iterator-protocol histories against a vector-and-cursor model; includes exhaustion probes after every history.",
    note="The model sequence is whatever plain next() yields on a twin instance; C02 ties that sequence to the one-shot calculator."),
+ "C18": dict(engine="E1 native history simulator (sim c18)", category="exploration", design_ref="5.5",
+   technique="deterministic simulation of setter-call histories: three clients (Performance setters, Difficulty setters, last-value record model) replay the same seeded history incl. replacement, inspect round trips, clones and raw writes into the inspectable form, and must agree",
+   text="Seeded search over setter histories with in-range, boundary, out-of-range and infinite values; weakest fit of the technique (no fault, schedule or I/O), kept because the property quantifies over orders of setter application.",
+   note="NaN inputs are not generated (the property speaks of out-of-range values). The record model encodes the documented clamps."),
+ "C20": dict(engine="E3 Miri thread scheduler (miri/ mscen threads, storm) + E1 turn-based worker threads (sim c20, c20s)", category="exploration", design_ref="5.10",
+   technique="deterministic simulation of thread schedules: Miri's seeded pre-emptive scheduler (data-race and deadlock detection) over jobs on shared and separate maps, plus native persistent worker threads released one unit of work at a time with seeded hand-over of gradual calculators (A->B->A); results compared with the sequential run",
+   text="Sampling of interleavings (Miri preemption rate 0.05-0.1, a few hundred executions per run) plus tens of thousands of replayable turn-based schedules in default and sync builds.",
+   note="Miri samples interleavings, it does not enumerate them. Natively two units never overlap by construction, so true races are only visible to the Miri part."),
 }
 
 NOT_APPLICABLE = {
